@@ -26,6 +26,10 @@ from simkit.rngseam import RngStub, binom_two_sided_tail
 from simkit.world import World, SEAM, SimFault, quiet
 
 
+def L_training_p(p):
+    return 0 < p < 1
+
+
 class BNModel:
     def __init__(self, C, eps, momentum, affine, track):
         self.C, self.eps, self.momentum, self.affine, self.track = C, eps, momentum, affine, track
@@ -64,7 +68,7 @@ class LayerSim(Sim):
               "bn_train_after_eval", "bn_eval_repeat", "bn_f64", "dropout_p0", "dropout_p1", "dropout_train", "dropout_eval", "dropout_stub_hit",
               "dropout_backward_same_mask", "dropout_two_pending_outputs_same_shape", "dropout_huge_sample", "dropout_independence", "mode_by_propagation", "fault_in_bn_training_forward", "fault_in_bn_eval_forward",
               "stats_overwritten", "bn_momentum_1", "bn_forward_untracked", "affine_updated_in_place", "affine_updated_by_optimizer",
-              "bn_training_forward_rejected_single_value", "layer_replaced_after_use"]
+              "bn_training_forward_rejected_single_value", "layer_replaced_after_use", "dropout_input_with_exact_zeros", "dropout_backward_at_zero_inputs"]
     RULE = ("one run = 1-3 layers (BatchNorm1d/2d, Dropout; all constructor options) with a seeded history of mode switches (direct or by "
             "propagation), forwards, backwards, buffer overwrites and faults; distinct = layer configurations x mode/forward/backward sequence; "
             "non-trivial = at least two forwards on one layer with a mode switch or a buffer update in between")
@@ -134,7 +138,7 @@ class LayerSim(Sim):
         if r < kn["p_mode"] + 0.15 and st.last.get(lid):
             # backward through ANY of the recent training outputs of this layer (not only the latest)
             which = rng.randrange(len(st.last[lid]))
-            x, out = st.last[lid][which]
+            x, out = st.last[lid][which][:2]
             return {"k": "dropout_backward", "lid": lid, "which": which, "g": enc(small_values(rng, out.data.shape, np.float64, -2, 2, avoid_zero=True))}
         if rng.random() < 0.02:
             # rarely a HUGE sample: a drop probability that is off by a fraction of a percent (or never / always drops for extreme p)
@@ -143,6 +147,10 @@ class LayerSim(Sim):
         big = rng.random() < 0.5
         shape = (rng.randint(3, 5), rng.randint(96, 128)) if big else rng.choice([(4,), (2, 5), (2, 3, 4)])
         x = small_values(rng, shape, np.float64 if rng.random() < 0.5 else np.float32, -3, 3, avoid_zero=True)
+        if rng.random() < 0.35:
+            # exact zeros in the input (post-ReLU activations, padding, one-hot features): a kept zero is still kept
+            zr = np.random.RandomState(rng.randrange(2 ** 31)).rand(*shape) < rng.choice([0.3, 0.5, 0.9])
+            x = np.where(zr, x.dtype.type(0), x)
         return {"k": "forward", "lid": lid, "x": enc(x), "stub": rng.random() < 0.4, "repeat": rng.random() < 0.3, "rg": rng.random() < 0.8}
 
     # ------------------------------------------------------------------ events
@@ -450,24 +458,29 @@ class LayerSim(Sim):
         elif not np.all(kept | zero):
             bad = np.argwhere(~(kept | zero))[0].tolist()
             st.fail("C13.dropout_mask_algebra", f"Dropout(p={p}) training output element {bad} = {got[tuple(bad)]!r} is neither 0 nor x/(1-p) = {float(xx[tuple(bad)] * scale)!r}", p=p)
+        xnz = xx != 0                       # where the input is exactly 0 the output does not reveal the mask
+        if not np.all(xnz):
+            st.probes["dropout_input_with_exact_zeros"] += 1
         mask = (~zero) if p < 1 else np.zeros(xx.shape, dtype=bool)
-        if p == 0 and not np.all(mask) and stub is None:      # (the stub stream contains u == 0.0 exactly: a boundary case, not judged)
+        if p == 0 and not np.all(mask | ~xnz) and stub is None:      # (the stub stream contains u == 0.0 exactly: a boundary case, not judged)
             st.fail("C13.dropout_mask_algebra", "Dropout(p=0) zeroed an element")
+        keep_full = None
         if stub is not None and any(stub.hits.values()) and stub.last_u is not None and stub.last_u.size == xx.size and 0 < p < 1:
             st.probes["dropout_stub_hit"] += 1
             u = stub.last_u.reshape(xx.shape)
             # elements with u exactly at p are boundary cases (<= vs <): not judged
             expect_keep = u > p
-            judge = np.abs(u - p) > 1e-12
+            judge = (np.abs(u - p) > 1e-12) & xnz
             if np.any((mask != expect_keep) & judge):
                 st.fail("C13.dropout_probability", f"Dropout(p={p}): with a known uniform stream, the kept set is not {{u > p}} "
                         f"({int(np.sum((mask != expect_keep) & judge))} of {xx.size} elements differ)", p=p)
-        elif 0 < p < 1 and xx.size >= 200 and stub is None:
-            k = int(zero.sum())
-            tail = binom_two_sided_tail(xx.size, k, p)
+            keep_full = (expect_keep, np.abs(u - p) > 1e-12)
+        elif 0 < p < 1 and int(xnz.sum()) >= 200 and stub is None:
+            k = int((zero & xnz).sum())
+            tail = binom_two_sided_tail(int(xnz.sum()), k, p)
             if tail < 1e-12:
-                st.fail("C13.dropout_probability", f"Dropout(p={p}) zeroed {k} of {xx.size} elements (two-sided binomial tail {tail:.2g})", p=p)
-            if xx.ndim == 2 and xx.shape[1] >= 90 and 0.2 <= p <= 0.8:
+                st.fail("C13.dropout_probability", f"Dropout(p={p}) zeroed {k} of {int(xnz.sum())} non-zero elements (two-sided binomial tail {tail:.2g})", p=p)
+            if xx.ndim == 2 and xx.shape[1] >= 90 and 0.2 <= p <= 0.8 and np.all(xnz):
                 st.probes["dropout_independence"] += 1
                 rows = [mask[i].tobytes() for i in range(mask.shape[0])]
                 if len(set(rows)) < len(rows):
@@ -479,7 +492,7 @@ class LayerSim(Sim):
                 if prev is not None and prev == mask.tobytes():
                     st.fail("C13.dropout_independence", f"Dropout(p={p}) produced the same mask in two successive calls")
                 st.fw[(ev["lid"], xx.shape)] = mask.tobytes()
-        st.last.setdefault(ev["lid"], []).append((xt, out))
+        st.last.setdefault(ev["lid"], []).append((xt, out, keep_full))
         del st.last[ev["lid"]][:-3]
         if len(st.last[ev["lid"]]) >= 2 and st.last[ev["lid"]][-2][1].data.shape == out.data.shape:
             st.probes["dropout_two_pending_outputs_same_shape"] += 1
@@ -510,7 +523,7 @@ class LayerSim(Sim):
         if ev.get("which", 0) >= len(lst):
             st.skipped += 1
             return
-        xt, out = lst.pop(ev.get("which", 0))
+        xt, out, keep_full = (tuple(lst.pop(ev.get("which", 0))) + (None,))[:3]
         g = dec(ev["g"])
         if not out.requires_grad or g.shape != out.data.shape:
             st.skipped += 1
@@ -522,9 +535,37 @@ class LayerSim(Sim):
         except Exception as e:
             st.fail("C13.dropout_backward", f"backward through a Dropout output raised {type(e).__name__}: {e}")
         st.probes["dropout_backward_same_mask"] += 1
+        p = st.L[ev["lid"]]["cfg"]["p"]
         xx = np.asarray(xt.data, dtype=np.float64)
-        ratio = np.asarray(out.data, dtype=np.float64) / xx
-        want = np.asarray(g.astype(out.data.dtype), dtype=np.float64) * ratio
+        nz = xx != 0
+        gg = np.asarray(g.astype(out.data.dtype), dtype=np.float64)
         got = np.asarray(xt.grad.data, dtype=np.float64)
-        if not np.all(np.abs(got - want) <= 2e-6 * np.abs(want) + 1e-12):
-            st.fail("C13.dropout_backward", "the input gradient of Dropout is not g * mask/(1-p) with the mask of the forward call", p=st.L[ev["lid"]]["cfg"]["p"])
+        with np.errstate(all="ignore"):
+            ratio = np.where(nz, np.asarray(out.data, dtype=np.float64) / np.where(nz, xx, 1.0), 0.0)
+        want = gg * ratio
+        if not np.all((np.abs(got - want) <= 2e-6 * np.abs(want) + 1e-12) | ~nz):
+            st.fail("C13.dropout_backward", "the input gradient of Dropout is not g * mask/(1-p) with the mask of the forward call", p=p)
+        if not np.all(nz) and L_training_p(p):
+            # where the input was exactly 0 the mask cannot be read off the output: every such gradient is 0 or g/(1-p); under the stub
+            # stream the kept set is known exactly, under the real generator the kept fraction must be plausible for 1-p
+            z = ~nz
+            scale = 1.0 / (1.0 - p)
+            kept = np.abs(got - gg * scale) <= 2e-6 * np.abs(gg * scale) + 1e-12
+            dropped = got == 0
+            if not np.all((kept | dropped) | nz):
+                st.fail("C13.dropout_backward", "the input gradient of Dropout at an exactly-zero input element is neither 0 nor g/(1-p)", p=p)
+            st.probes["dropout_backward_at_zero_inputs"] += 1
+            if keep_full is not None:
+                exp_keep, judge = keep_full
+                exp_keep, judge = exp_keep.reshape(xx.shape), judge.reshape(xx.shape)
+                bad = z & judge & (gg != 0) & (kept != exp_keep)
+                if np.any(bad):
+                    st.fail("C13.dropout_backward", f"Dropout backward does not use the mask of the forward call where the input was exactly 0 "
+                            f"({int(bad.sum())} of {int(z.sum())} such elements: kept elements must pass g/(1-p), dropped ones 0)", p=p)
+            else:
+                m = int((z & (gg != 0)).sum())
+                if m >= 60:
+                    k = int((z & (gg != 0) & dropped).sum())
+                    if binom_two_sided_tail(m, k, p) < 1e-12:
+                        st.fail("C13.dropout_backward", f"Dropout(p={p}) backward passed a gradient at {m - k} of {m} exactly-zero input elements "
+                                "(the kept fraction is not plausible for the mask of the forward call)", p=p)
